@@ -258,12 +258,20 @@ WCliLineD(w, ln, dig(_, _, _)) ==
   IF w7.mode = "list" THEN
      (IF ln.k = "end" THEN
          LET acc == w7.listAcc
-             s == ServerSees([w7 EXCEPT !.listAcc = <<>>, !.mode = "ready"], acc)
+             \* a list made of picture commands only (a client may fetch several chunks in one batch): each is executed by the picture
+             \* rules at its own list index and recorded as a picture request the server saw; it belongs to no caller-issued request id
+             allPic == acc # <<>> /\ \A i \in 1..Len(acc) : acc[i].t = "pic"
+             s == IF allPic THEN [w |-> [w7 EXCEPT !.listAcc = <<>>, !.mode = "ready",
+                                                   !.art = @ \o [i \in 1..Len(acc) |-> [emb |-> acc[i].fail, off |-> acc[i].pad, uri |-> acc[i].id, at |-> w7.wr]]], ri |-> 0]
+                  ELSE ServerSees([w7 EXCEPT !.listAcc = <<>>, !.mode = "ready"], acc)
              RECURSIVE Run(_, _)
              Run(i, lsacc) == IF i > Len(acc) THEN Append(lsacc, OkL)
-                              ELSE LET x == IF acc[i].t = "bad" THEN [ok |-> FALSE, ls |-> <<AckL(5, i - 1, <<>>, <<>>)>>] ELSE Exec(acc[i], i - 1) IN
+                              ELSE LET x == IF acc[i].t = "bad" THEN [ok |-> FALSE, ls |-> <<AckL(5, i - 1, <<>>, <<>>)>>]
+                                            ELSE IF acc[i].t = "pic" THEN ExecPic(IF IsAlt(acc[i].id) THEN w7.pic2 ELSE w7.pic, TbFor(acc[i].id), acc[i].fail, acc[i].pad, i - 1, dig)
+                                            ELSE Exec(acc[i], i - 1) IN
                                    IF x.ok THEN Run(i + 1, lsacc \o x.ls \o <<ListOkL>>) ELSE lsacc \o x.ls
          IN IF acc = <<>> THEN Emit(s.w, "list", <<OkL>>, 0) ELSE Emit(s.w, "list", Run(1, <<>>), s.ri)
+      ELSE IF ln.k = "pic" /\ \A i \in 1..Len(w7.listAcc) : w7.listAcc[i].t = "pic" THEN [w7 EXCEPT !.listAcc = Append(@, [id |-> ln.id, fail |-> ln.fail, pad |-> ln.pad, t |-> "pic"])]
       ELSE IF ln.k = "req" THEN [w7 EXCEPT !.listAcc = Append(@, Cmd(ln.id, ln.fail, ln.pad))]
       ELSE IF ln.k \in {"sticker", "update", "addid", "channels"} THEN [w7 EXCEPT !.listAcc = Append(@, CmdT(ln.k, ln.id))]
       ELSE V([w7 EXCEPT !.listAcc = Append(@, CmdT("bad", <<>>))], "C07", "non-request line inside a command list", ""))
